@@ -35,7 +35,7 @@ LEVEL_TEXT = (
     "estimator on that plate alone; nothing is sampled"
 )
 RULE = (
-    "cases = {n posterior samples} x {every ordered arrangement of every multiset of plate sizes} x {10 value families} "
+    "cases = {n posterior samples} x {every ordered arrangement of every multiset of plate sizes} x {11 value families} "
     "x {4 entry points} + every relabelling of the samples (n<=5) + every order of experiments inside every plate "
     "+ scorer max_chunk in {1,2,50} + the answer tree of rng.choice (complete for n=3,4; default and reversed order "
     "above) + the complete 3^9 value product on the smallest shape.  A case is non-trivial when it exercises at "
@@ -54,7 +54,7 @@ BOUNDS = {
               "leaves, multisets of pairwise distinct sizes), families graded and onepair, sorted plate order; "
               "everywhere else (and n=5) the default answer plus the fully reversed triple order",
               "smallest_shape_product": "means {-1,0,2}^3 x variances {1e-3,1,1e3}^3 x distances {0,1,3}^3 = 19683",
-              "value_families": 10, "max_combos": "C(n,3) and 5000 (both >= C(n,3))", "distance_factor": 1.0,
+              "value_families": 11, "max_combos": "C(n,3) and 5000 (both >= C(n,3))", "distance_factor": 1.0,
               "sparse_large_probe": "one call with 20 plates (1..400 experiments) x 16 posterior samples (560 triples), all four entry points; 65 / 70 / 130 / 300 plates of 1..8 experiments in one call"},
     "thorough": {"n_thetas": [3, 4, 5, 6, 7], "plate_sizes": [1, 2, 3, 4], "max_plates": 4, "plate_orders": "all k!",
                  "relabellings": "all n! for n<=5; identity, reversal, rotation, one swap for n=6,7",
@@ -62,7 +62,7 @@ BOUNDS = {
                  "time with the others unpermuted",
                  "max_chunk": [1, 2, 3, 50], "rng_tree": "as quick, and the scorer 2-call tree on every multiset with <= 3 plates; "
                  "n>=5: default + fully reversed triple order",
-                 "smallest_shape_product": "19683 cases x 2 wrappers", "value_families": 10,
+                 "smallest_shape_product": "19683 cases x 2 wrappers", "value_families": 11,
                  "max_combos": "C(n,3) and 5000", "distance_factor": 1.0, "sparse_large_probe": "as quick"},
 }
 ASSUMPTIONS = [
@@ -75,7 +75,7 @@ ASSUMPTIONS = [
     "equality and finiteness are demanded",
     "the vectorised kernel is called directly with NaN-padded variances (as its docstring requires) and 0-padded "
     "means (as both wrappers do); its docstring does not name the mean padding",
-    "values come from finite menus / ten deterministic families (means within +-1e8, variances 1e-6..1.2e3, "
+    "values come from finite menus / eleven deterministic families (means within +-1e8, variances 1e-6..1.2e3, "
     "distances 0..3.5); nothing is claimed for inf/NaN inputs or values whose squares overflow",
     "the scorer is driven with stub Theta objects whose conditional mean / variance are a table keyed by "
     "(sample id, treatment ids) of the rows asked about; real Screen/Plate, ThetaHolder, ChunkedDistanceMatrix",
@@ -88,7 +88,7 @@ ASSUMPTIONS = [
 RTOL = 1e-9
 ATOL = 1e-9
 _MEASURE = None  # offline only: set to {} to record the largest discrepancy per family (never decides a verdict)
-FAMILIES = ["graded", "extreme", "equalmeans", "zerodist", "onepair", "hugegap", "offset", "intmeans", "nearhomo", "tinyvar"]
+FAMILIES = ["graded", "extreme", "equalmeans", "zerodist", "onepair", "hugegap", "offset", "intmeans", "nearhomo", "tinyvar", "diag"]
 ENTRIES = ["hetero", "homo", "kernel", "scorer"]
 
 
@@ -188,6 +188,11 @@ def family_D(fam, n):
     for a in range(n):
         for b in range(a + 1, n):
             D[a][b] = D[b][a] = 0.2 + 0.5 * (b - a) + 0.13 * a
+    if fam == "diag":
+        # a symmetric non-negative matrix whose DIAGONAL is not zero (e.g. 0.5 * (R + R.T)); the estimator sums distances of pairs
+        # of distinct samples, so the diagonal has no say (the scorer entry stores pairs i > j only and never sees it)
+        for a in range(n):
+            D[a][a] = 0.3 + 0.1 * a
     return D
 
 
